@@ -31,6 +31,9 @@ func runC05(c *eng.Ctx) {
 	ruleOffsetIdentity(c)
 	c.Rule("R05.5", "K2")
 	ruleEpochHistoryIsReadInFileOrder(c)
+	ruleAppendAssignsEpochsFromTheCache(c)
+	c.Rule("R05.8", "K5")
+	ruleRecoveredEntryIsTheLastAnswer(c)
 	// ---- R05.1
 	c.Rule("R05.1", "K2")
 	ruleLogThenIndex(c)
